@@ -25,7 +25,7 @@ def q(n):
 
 def build(d):
     tag, attrs, text, kids = d
-    e = ET.Element(q(tag), {q(k): v for k, v in attrs.items()})
+    e = ET.Element(tag[1:] if tag.startswith("!") else q(tag), {q(k): v for k, v in attrs.items()})
     e.text = text
     for k in kids:
         e.append(build(k))
@@ -81,13 +81,41 @@ def own_val(e, pr, ch, default):
     return default
 
 
+ON, OFF = ("1", "true", "on"), ("0", "false", "off")       # ST_OnOff spellings
+
+
+def onoff(e, pr, name):
+    """state of the element's own on/off property pr/name: None = absent or switched off (the operand is visible: it MUST
+    be rendered); "on" = switched on or an unrecognised spelling (a converter may render the operand or hide it)"""
+    for p in e:
+        if p.tag == q(pr):
+            for c in p:
+                if c.tag == q(name):
+                    v = c.get(q("val"))
+                    if v is not None and v.strip().lower() in OFF:
+                        return None
+                    return "on"
+    return None
+
+
+def onoff_desc(d, pr, name):
+    for p in d[3]:
+        if p[0] == pr:
+            for c in p[3]:
+                if c[0] == name:
+                    v = c[1].get("val")
+                    return None if (v is not None and v.strip().lower() in OFF) else "on"
+    return None
+
+
 class Ref:
     """documented rendering; `conv` maps run text (the real symbol table is used for the text mapping
     when handed in, the local table otherwise); close_first: a pending radical is closed before a new
     malformed one opens"""
 
-    def __init__(self, conv, close_first=True):
-        self.conv, self.close_first, self.pending = conv, close_first, None
+    def __init__(self, conv, close_first=True, hide_on=False):
+        # hide_on: an operand whose hide property (m:subHide, m:supHide, m:degHide) is switched ON is left out
+        self.conv, self.close_first, self.pending, self.hide_on = conv, close_first, None, hide_on
 
     def render(self, root):
         if root is None:
@@ -130,7 +158,7 @@ class Ref:
             return a + "_{" + b + "}^{" + c + "}"
         if tag == "rad":
             ct = P("e")
-            dg = P("deg").strip()
+            dg = "" if (self.hide_on and onoff(e, "radPr", "degHide")) else P("deg").strip()
             head = "\\sqrt[" + dg + "]{" if dg else "\\sqrt{"
             if ct.strip() in CLOSER:
                 pre = "}" if (self.pending and self.close_first) else ""
@@ -140,8 +168,8 @@ class Ref:
         if tag == "nary":
             o = own_val(e, "naryPr", "chr", "∑")
             op = NARY.get(o, self.conv(o))
-            sub = P("sub")
-            sup = P("sup")
+            sub = "" if (self.hide_on and onoff(e, "naryPr", "subHide")) else P("sub")
+            sup = "" if (self.hide_on and onoff(e, "naryPr", "supHide")) else P("sup")
             ct = P("e")
             return op + ("_{" + sub + "}" if sub.strip() else "") + ("^{" + sup + "}" if sup.strip() else "") + " " + ct
         if tag == "d":
@@ -199,10 +227,33 @@ def structures(ops):
                 yield E("d", *([pr] if pr is not None else []), *es)
     for rows in ([], [[0]], [[0, 1]], [[0], [1]], [[0, 1], [1, 0]], [[]]):
         yield E("m", *[E("mr", *[E("e", *ops[i % len(ops)]) for i in r]) for r in rows])
+    for j in range(2, len(ops)):                 # every operand option sits in a matrix cell at least once
+        yield E("m", E("mr", E("e", *ops[j])))
+        yield E("m", E("mPr", E("mcs")), E("mr", E("e", run("p")), E("e", *ops[j])), E("mr", E("e", *ops[j - 1]), E("e", run("q"))))
+    yield from flagged()
     yield from mk("func", opt(E("fName", run("sin")), E("fName", run(" lim ")), E("fName", run("f")), E("fName")), W("e"))
     yield from mk("bar", opt(E("barPr", E("pos", val="top"))), W("e"))
     apr = [None, E("accPr")] + [E("accPr", c) for c in chr_alts("chr", ["̃", "⃗", "x", ""])]
     yield from mk("acc", apr, W("e"))
+
+
+FLAG_VALS = [None, "1", "0", "on", "off", "true", "false", "Off ", "TRUE"]
+
+
+def flagged():
+    """hide / on-off properties (ST_OnOff) in every spelling, with the operand they govern present, blank or absent"""
+    def fl(name, v):
+        return E(name) if v is None else E(name, val=v)
+    for v in FLAG_VALS:
+        for limit in ([run("i")], [run(" ")], None):
+            kids = lambda nm: [E(nm, *limit)] if limit is not None else []
+            yield E("nary", E("naryPr", fl("subHide", v)), *kids("sub"), E("sup", run("n")), E("e", run("x")))
+            yield E("nary", E("naryPr", E("chr", val="∫"), fl("supHide", v)), E("sub", run("a")), *kids("sup"), E("e", run("x")))
+            yield E("rad", E("radPr", fl("degHide", v)), *kids("deg"), E("e", run("x")))
+        yield E("nary", E("naryPr", fl("subHide", v), fl("supHide", v), E("limLoc", val="undOvr"), E("grow", val="1")),
+                E("sub", run("i")), E("sup", run("n")), E("e", run("x")))
+        yield E("f", E("fPr", E("type", val="noBar")), E("num", run("a")), E("den", run("b")))
+        yield E("r", E("rPr", fl("nor", v), E("sty", val="b")), E("t", text="w"))
 
 
 LEAF_TEXTS = ["x", "(", ")", "a)b", "[", "]", " ", "", None, "α", "ℝ≤∞", "( ", "y]", "α)x", "a≤b]c"]
@@ -238,6 +289,10 @@ def scope(seed=0, budget=None):
     for s in structures(ops2):
         yield E("oMath", s)
         yield E("oMath", s, run("u)v"))
+    # nesting: every structure inside every operand slot / matrix cell of every structure (also of itself), containers outside
+    # the vocabulary, foreign wrapper elements
+    for s in one_slot(RICH + RICH2):
+        yield E("oMath", s)
     # oMathPara wrapper and property elements interleaved
     for s in reps:
         yield E("oMathPara", E("oMathParaPr", E("jc", val="center")), E("oMath", E("ctrlPr"), s, E("ctrlPr")))
@@ -260,11 +315,43 @@ def representatives(d1):
 
 
 def rand_tree(rnd, depth):
+    """a random element of the vocabulary (optional children / properties present or absent at random)"""
     if depth == 0 or rnd.random() < 0.25:
         return run(rnd.choice(LEAF_TEXTS))
-    ops = [[rand_tree(rnd, depth - 1) for _ in range(rnd.randint(0, 2))] for _ in range(4)]
-    pool = list(itertools.islice(structures(ops), 0, None))
-    return rnd.choice(pool)
+
+    def operand(name, p=0.8):
+        return [E(name, *[rand_tree(rnd, depth - 1) for _ in range(rnd.randint(0, 2))])] if rnd.random() < p else []
+
+    def flag(name):
+        v = rnd.choice(FLAG_VALS)
+        return E(name) if v is None else E(name, val=v)
+
+    def maybe(x, p=0.5):
+        return [x] if rnd.random() < p else []
+    tag = rnd.choice(["f", "sSup", "sSub", "sSubSup", "rad", "nary", "d", "m", "func", "bar", "acc", "box", "eqArr", "limLow"])
+    if tag == "f":
+        kids = maybe(E("fPr", E("type", val="bar"))) + operand("num") + operand("den")
+    elif tag in ("sSup", "sSub", "sSubSup"):
+        kids = operand("e") + (operand("sub") if tag != "sSup" else []) + (operand("sup") if tag != "sSub" else [])
+    elif tag == "rad":
+        kids = maybe(E("radPr", flag("degHide"))) + operand("deg", 0.5) + operand("e")
+    elif tag == "nary":
+        pr = maybe(E("chr", val=rnd.choice(["∫", "∏", "", "α"])), 0.6) + maybe(flag("subHide"), 0.3) + maybe(flag("supHide"), 0.3)
+        kids = maybe(E("naryPr", *pr), 0.7) + operand("sub") + operand("sup") + operand("e")
+    elif tag == "d":
+        pr = maybe(E("begChr", val=rnd.choice(["[", "", "|"])), 0.5) + maybe(E("endChr", val=rnd.choice(["]", ""])), 0.5)
+        kids = maybe(E("dPr", *pr), 0.6) + [k for _ in range(rnd.randint(0, 3)) for k in operand("e", 1.0)]
+    elif tag == "m":
+        kids = [E("mr", *[k for _ in range(rnd.randint(0, 2)) for k in operand("e", 1.0)]) for _ in range(rnd.randint(0, 2))]
+    elif tag == "func":
+        kids = maybe(E("fName", run(rnd.choice(["sin", " lim ", "f"]))), 0.8) + operand("e")
+    elif tag == "acc":
+        kids = maybe(E("accPr", E("chr", val=rnd.choice(["̃", "⃗", "x", ""]))), 0.6) + operand("e")
+    elif tag == "limLow":
+        kids = operand("e") + operand("lim")
+    else:
+        kids = operand("e") + (operand("e") if tag == "eqArr" else [])
+    return E(tag, *kids)
 
 
 # ------------------------------------------------------------------------------ checks --
@@ -292,7 +379,10 @@ def relabel(d, counter):
     return [tag, attrs, text, [relabel(k, counter) for k in kids]]
 
 
-def rendered_ts(d, out, under_func_name=False):
+HIDE = {("rad", "deg"): ("radPr", "degHide"), ("nary", "sub"): ("naryPr", "subHide"), ("nary", "sup"): ("naryPr", "supHide")}
+
+
+def rendered_ts(d, out, optional=None):
     """run texts the documented forms render, in source order (schema-shaped trees)"""
     tag, attrs, text, kids = d
     if tag in SKIP:
@@ -307,23 +397,26 @@ def rendered_ts(d, out, under_func_name=False):
         for nm in named[tag]:
             for k in kids:
                 if k[0] == nm:
-                    rendered_ts(k, out)
+                    if (tag, nm) in HIDE and onoff_desc(d, *HIDE[(tag, nm)]) and optional is not None:
+                        rendered_ts(k, optional, optional)        # may be left out (hide property switched on)
+                    else:
+                        rendered_ts(k, out, optional)
                     break
         return
     if tag == "d":
         for k in kids:
             if k[0] == "e":
-                rendered_ts(k, out)
+                rendered_ts(k, out, optional)
         return
     if tag == "m" and any(k[0] == "mr" for k in kids):
         for k in kids:
             if k[0] == "mr":
                 for c in k[3]:
                     if c[0] == "e":
-                        rendered_ts(c, out)
+                        rendered_ts(c, out, optional)
         return
     for k in kids:
-        rendered_ts(k, out)
+        rendered_ts(k, out, optional)
 
 
 def without(d, tag):
@@ -339,7 +432,7 @@ def matches_reference(fn, conv, d):
     except Exception:  # noqa
         return True, None, None        # an exception is the totality check's business
     a = Ref(conv, True).render(build(d))
-    return (got == a or got == Ref(conv, False).render(build(d))), a, got
+    return any(got == Ref(conv, cf, ho).render(build(d)) for cf in (True, False) for ho in (False, True)), a, got
 
 
 def check(fn, conv, d, which):
@@ -367,11 +460,11 @@ def check(fn, conv, d, which):
         except Exception:  # noqa
             g2 = None
         if g2 is not None:
-            want = []
-            rendered_ts(d2[3][0] if d2[0] == "oMathPara" and False else d2, want)
+            want, maybe = [], []
+            rendered_ts(d2, want, maybe)
             pos = [g2.find(t) for t in want]
             cnt = [g2.count(t) for t in want]
-            if any(c != 1 for c in cnt) or pos != sorted(pos):
+            if any(c != 1 for c in cnt) or pos != sorted(pos) or any(g2.count(t) > 1 for t in maybe):
                 return ("order", f"each of {want} exactly once, in this order", g2)
     if which.startswith("template") or which == "all":
         tag = which.split(".", 1)[1] if "." in which else None
@@ -408,6 +501,40 @@ RICH = [E("acc", E("accPr", E("chr", val="̃")), E("e", run("x"))),
         E("f", E("num", run("a")), E("den", run("b"))),
         E("rad", E("deg", run("3")), E("e", run("x"))),
         E("func", E("fName", run("sin")), E("e", run("x")))]
+# every tag nests in every operand slot (also in itself): the rest of the vocabulary, containers the converter does not know
+# (rendered as the concatenation of their children) and foreign wrappers (tracked changes, alternate content)
+RICH2 = [E("m", E("mr", E("e", run("u")), E("e", run("v"))), E("mr", E("e", run("w")))),
+         E("sSup", E("e", run("b")), E("sup", run("2"))),
+         E("sSub", E("e", run("b")), E("sub", run("k"))),
+         E("sSubSup", E("e", run("b")), E("sub", run("k")), E("sup", run("2"))),
+         E("bar", E("e", run("z"))),
+         E("box", E("boxPr"), E("e", run("g"), run("h"))),
+         E("limLow", E("e", run("lim")), E("lim", run("n"))),
+         E("eqArr", E("e", run("r1")), E("e", run("r2"))),
+         E("sPre", E("sub", run("1")), E("sup", run("2")), E("e", run("X"))),
+         ["!{urn:w}ins", {}, None, [run("t1"), E("f", E("num", run("c")), E("den", run("d")))]],
+         ["!{urn:mc}AlternateContent", {}, None, [["!{urn:mc}Choice", {}, None, [run("c1")]], ["!{urn:mc}Fallback", {}, None, [run("c2")]]]]]
+
+
+def one_slot(extra):
+    """every structure with plain operands, one slot at a time replaced by each rich operand"""
+    plain = [[run("x")]]
+    for base in structures(plain):
+        if not any(k[0] in ("num", "den", "e", "sub", "sup", "deg", "fName", "mr") for k in base[3]):
+            continue
+        slots = [(i, k) for i, k in enumerate(base[3]) if k[0] in ("num", "den", "e", "sub", "sup", "deg", "fName")]
+        cells = [(i, j, c) for i, k in enumerate(base[3]) if k[0] == "mr" for j, c in enumerate(k[3]) if c[0] == "e"]
+        for r in extra:
+            for (i, k) in slots:
+                kids = list(base[3])
+                kids[i] = [k[0], k[1], k[2], [r]]
+                yield [base[0], base[1], base[2], kids]
+            for (i, j, c) in cells:
+                kids = list(base[3])
+                row = list(kids[i][3])
+                row[j] = [c[0], c[1], c[2], [r]]
+                kids[i] = [kids[i][0], kids[i][1], kids[i][2], row]
+                yield [base[0], base[1], base[2], kids]
 
 
 def template_scope(tag):
@@ -417,6 +544,7 @@ def template_scope(tag):
         return
     d1 = [s for s in structures(FREE_OPS)]
     yield from (s for s in d1 if s[0] == tag)
+    yield from (s for s in one_slot(RICH + RICH2) if s[0] == tag)
     reps = RICH + representatives(d1)
     for s in structures([[r] for r in reps]):
         if s[0] == tag:
@@ -428,9 +556,12 @@ def template_check(fn, conv, s):
         got = fn(build(E("oMath", s)))
         top = build(s)
         want = OneLevel(conv, fn, top).pe(top)
+        hidden = OneLevel(conv, fn, top)
+        hidden.hide_on = True
+        want_h = hidden.pe(top)
     except Exception:  # noqa   (totality is checked separately)
         return None
-    if got != want:
+    if got != want and got != want_h:
         return ("template." + s[0], want, got)
     return None
 
@@ -539,6 +670,11 @@ def site_scope():
         yield [wrapper("{urn:a14}m", E("oMathPara", om()))]
         yield [wrapper("{urn:a}r", E("t", text="plain"))]
         yield [E("oMathPara", wrapper("{urn:x}box", om()))]          # an oMath that is not a child of the oMathPara
+        same = lambda: E("oMath", run("same"))                      # the same equation more than once in one container
+        yield [same(), same()]
+        yield [E("oMathPara", same()), same()]
+        yield [E("oMathPara", same()), E("oMathPara", same())]
+        yield [wrapper("{urn:mc}AlternateContent", wrapper("{urn:mc}Choice", same()), wrapper("{urn:mc}Fallback", same()))]
     W = "{urn:p}txBody"
     yield wrapper(W)
     for a in blocks():
